@@ -105,7 +105,7 @@ def c09_p3(t: P3, p: int, perm: int) -> bool:
 
 def c09_b4(t: P2B4, p: int) -> bool:
     """
-    pre: pinned(l0=t[1], l1=t[7], s0=t[2], h1=t[6])
+    pre: pinned(l0=t[1], l1=t[7], s0=t[2], s1=t[3], h1=t[6])
     pre: p == 2
     pre: cfg_canonical(t, p, 2, 2, 4)
     pre: (t[1] >= 3) & (t[7] >= 3)
@@ -175,8 +175,8 @@ def _sh_p3(tier):
 
 def _sh_b4(tier):
     if tier == "quick":
-        return product_pins(l0=[3], l1=[3], s0=[1, 2], h1=[0, 1])
-    return product_pins(l0=[3, 4], l1=[3, 4], s0=[0, 1, 2, 3], h1=[0, 1])
+        return product_pins(l0=[3], l1=[3], s0=[1, 2], s1=[0, 1, 2, 3], h1=[0, 1])
+    return product_pins(l0=[3, 4], l1=[3, 4], s0=[0, 1, 2, 3], s1=[0, 1, 2, 3], h1=[0, 1])
 
 
 FUNCS = ["CFG.remove_useless_symbols", "CFG.remove_epsilon", "CFG.eliminate_unit_productions",
